@@ -76,6 +76,7 @@ def main(argv=None):
     inlined = set()
     used_assumptions = set()
     canary_groups = {}
+    second_total = second_agree = 0
     assumed = set()
     funcs_ok = []
     for r in results:
@@ -109,6 +110,13 @@ def main(argv=None):
                 known_hit.append((match_known(known, o), o))
                 continue
             n_obl += 1
+            if o.get('second'):
+                second_total += 1
+                if o['second'][1] == 'sat' and o['status'] == 'unsat':
+                    broken.append('solver disagreement on %s: %s says sat' %
+                                  (o['name'], o['second'][0]))
+                elif o['second'][1] == 'unsat':
+                    second_agree += 1
             if o['status'] == 'unsat':
                 n_dis += 1
                 by_backend[o['backend']] = by_backend.get(o['backend'],
@@ -154,8 +162,23 @@ def main(argv=None):
                                        'observed': detail}})
 
     bounded = []
-    if tier == 'thorough' and hasattr(prop, 'bounded'):
-        for b in prop.bounded(seed):
+    mutant_report = []
+    if tier == 'thorough' and not os.environ.get('PYVC_NO_MUTANTS'):
+        mutant_report = run_mutants(pid)
+        for mr in mutant_report:
+            if not mr['killed']:
+                # a surviving mutant weakens the claim; it is reported, it
+                # does not make the unchanged tree a violation
+                print('MUTANT-SURVIVED property=%s %s' % (pid, mr['change']))
+    bfuncs = []
+    if tier == 'thorough':
+        try:
+            from props import bounded as _b
+            bfuncs = _b.BOUNDED.get(pid, [])
+        except ImportError:
+            bfuncs = []
+    if bfuncs:
+        for b in [f(seed) for f in bfuncs]:
             bounded.append(b)
             if b.get('failures'):
                 for f in b['failures'][:3]:
@@ -217,9 +240,12 @@ def main(argv=None):
             'by_backend': by_backend,
             'canaries_reachable': n_canary,
             'solver_seconds': round(solver_time, 2),
+            'second_opinion_z3_4_8_12': {'rechecked': second_total,
+                                         'also_unsat': second_agree},
             'samples': samples or [{'note': 'no discharged sample'}],
             'lemmas_by_evaluation': lemma_results,
             'bounded_stand_ins': bounded,
+            'mutation_self_test': mutant_report,
             'repo': front.REPO,
             'undecided': undecided, 'broken': broken,
             'stale_known_findings': [k['id'] for k in stale],
@@ -256,6 +282,51 @@ def witness_fails(k):
     except Exception:
         return True
     return True
+
+
+def run_mutants(pid):
+    """thorough tier: every listed property-breaking change of this
+    property must make the quick check exit 1 (scratch copy, removed)"""
+    import shutil
+    import subprocess
+    import tempfile
+    from props.mutants import MUTANTS
+    from pyvc import front
+    out = []
+    for (p, rel, old, new) in MUTANTS:
+        if p != pid:
+            continue
+        tmp = tempfile.mkdtemp(prefix='yalafi_mut_')
+        try:
+            shutil.copytree(os.path.join(front.REPO, 'yalafi'),
+                            os.path.join(tmp, 'yalafi'))
+            path = os.path.join(tmp, rel)
+            src = open(path, newline='').read()
+            o2, n2 = old, new
+            if o2 not in src and o2.replace('\n', '\r\n') in src:
+                o2, n2 = o2.replace('\n', '\r\n'), n2.replace('\n',
+                                                                 '\r\n')
+            if o2 not in src:
+                out.append({'change': '%s: %r' % (rel, old[:50]),
+                            'killed': False, 'note': 'pattern not found'})
+                continue
+            open(path, 'w', newline='').write(src.replace(o2, n2, 1))
+            env = dict(os.environ, YALAFI_REPO=tmp, PYVC_NO_MUTANTS='1',
+                       PYVC_EVIDENCE_DIR=os.path.join(tmp, 'ev'),
+                       VERIF_TIER='quick')
+            r = subprocess.run([os.path.join(HERE, 'check'), pid, '--tier',
+                                'quick'], env=env, capture_output=True,
+                               text=True)
+            viol = [l for l in r.stdout.splitlines()
+                    if l.startswith('VIOLATION')]
+            out.append({'change': '%s: %r -> %r' % (rel, old[:40], new[:40]),
+                        'killed': r.returncode == 1 and bool(viol),
+                        'exit': r.returncode,
+                        'first_violation': (viol[0].split('obligation=')[-1]
+                                            [:160] if viol else None)})
+        finally:
+            shutil.rmtree(tmp, ignore_errors=True)
+    return out
 
 
 def match_known(known, o):
